@@ -298,6 +298,8 @@ typedef struct BTree_s {
 static PyTypeObject BTreeTypeType;
 static PyTypeObject BTreeType;
 static PyTypeObject BucketType;
+static PyTypeObject SetType;
+static PyTypeObject TreeSetType;
 
 #define BTREE(O) ((BTree*)(O))
 
